@@ -35,44 +35,35 @@ func (e *Engine) makeChan(st *State, fr *Frame, x *ssa.MakeChan) Value {
 	return ch
 }
 
-// envStep: the environment may have closed the channel since it was last observed.
-// Lazy and quantifier-free: every call advances the state's epoch; the closed flag of
-// a channel is refreshed (closed' = closed or <fresh>) the first time it is read in a
-// new epoch.
-func (e *Engine) envStep(st *State, ch *smt.Term) {
-	if st.OldDepth > 0 {
-		return
-	}
-	if ep, ok := st.Touched[ch]; ok && ep == st.Epoch {
-		return
-	}
-	c := e.C
-	a := e.chClosed(st)
-	// deterministic name per (epoch, channel term): clause evaluations on scratch copies of
-	// the state must see the same refresh
-	now := c.Or(c.Select(a, ch), c.Var(fmt.Sprintf("env$closed$%d$%d", st.Epoch, ch.ID), smt.Bool))
-	st.Heap["chan.closed"] = c.Store(a, ch, now)
-	st.Touched[ch] = st.Epoch
-}
+// Environment steps. Any channel may be closed by another goroutine between two
+// observations; closure is monotone. The closed flag of channel ch observed in epoch n
+// (the epoch advances at every call) is
+//
+//	base[ch] or v(1,ch) or ... or v(n,ch)
+//
+// with one unconstrained boolean v(k,ch) per epoch: monotone by construction,
+// quantifier-free, and independent of where (real state or scratch copy) it is read.
+func (e *Engine) envStep(st *State, ch *smt.Term) {}
 
-// envStepAll: across a call, any channel may have been closed by the environment.
-func (e *Engine) envStepAll(st *State) {
-	st.Epoch++
-}
+func (e *Engine) envStepAll(st *State) { st.Epoch++ }
 
-// closedNow reads the closed flag after letting the environment step.
 func (e *Engine) closedNow(st *State, ch *smt.Term) *smt.Term {
-	e.envStep(st, ch)
-	return e.C.Select(e.chClosed(e.rd(st)), ch)
+	c := e.C
+	rs := e.rd(st)
+	ts := []*smt.Term{c.Select(e.chClosed(rs), ch)}
+	for k := 1; k <= rs.Epoch; k++ {
+		ts = append(ts, c.Var(fmt.Sprintf("env$closed$%d$%d", k, ch.ID), smt.Bool))
+	}
+	return c.Or(ts...)
 }
 
 func (e *Engine) recvEnabled(st *State, ch *smt.Term, closeOnly bool) *smt.Term {
 	c := e.C
 	if closeOnly {
 		// nobody ever sends on this channel (syntactic check): a receive completes iff closed
-		return c.Select(e.chClosed(st), ch)
+		return e.closedNow(st, ch)
 	}
-	return c.Or(c.Select(e.chClosed(st), ch), c.Select(e.chMine(st), ch), c.Fresh("env$sender", smt.Bool))
+	return c.Or(e.closedNow(st, ch), c.Select(e.chMine(st), ch), c.Fresh("env$sender", smt.Bool))
 }
 
 // chanUse collects, over the library's packages, the struct fields whose channel is
@@ -193,7 +184,7 @@ func (e *Engine) sendEnabled(st *State, ch *smt.Term) *smt.Term {
 func (e *Engine) doRecv(st *State, ch *smt.Term, elem types.Type, commaOk bool, closeOnly bool, lockLike bool) Value {
 	c := e.C
 	// a value buffered by this goroutine is consumed; on a closed channel the zero value arrives
-	closed := c.Select(e.chClosed(st), ch)
+	closed := e.closedNow(st, ch)
 	mine := c.Select(e.chMine(st), ch)
 	if closeOnly {
 		mine = c.False()
@@ -230,7 +221,11 @@ func (e *Engine) doSend(st *State, fr *Frame, ch *smt.Term, val Value, vt types.
 	// channel that is ever closed is ever sent on (see SyntacticChecks).
 	st.Heap["chan.mine"] = c.Store(e.chMine(st), ch, c.True())
 	if s := scalarSort(vt); s == smt.BV64 {
-		st.Heap["chan.lastsent"] = c.Store(e.chLastSent(st), ch, e.asTerm(st, val, vt))
+		vterm := e.asTerm(st, val, vt)
+		st.Heap["chan.lastsent"] = c.Store(e.chLastSent(st), ch, vterm)
+		// armed: the value sent is not (syntactically) context.Background()
+		armed := c.BoolC(!(vterm.Op == smt.OVar && vterm.Name == "pure$context.Background"))
+		st.Heap["chan.armed"] = c.Store(e.heapArr(st, "chan.armed", smt.Bool), ch, armed)
 	}
 }
 
